@@ -56,14 +56,19 @@ Whys(e) ==
          <<IF e.okAt = 0 /\ ~(e.kind = "err" /\ e.draws = 200 * e.len) THEN "P:C16:retry-budget-default-is-not-200-attempts" ELSE "ok",
            IF e.okAt \in 1..200 /\ ~(e.kind = "ok" /\ e.draws = e.okAt * e.len) THEN "P:C16:retry-budget-default-is-not-200-attempts" ELSE "ok",
            IF e.okAt > 200 /\ e.kind # "err" THEN "P:C16:retry-budget-default-is-not-200-attempts" ELSE "ok">>
-    [] e.op = "tolerance" ->    \* defaults 200 / 1e-9: refuse when the exact single-attempt success fraction is <= 0.085, never when >= 0.11
+    [] e.op = "tolerance" ->    \* defaults 200 / 1e-9: (1-p)^200 <= 1e-9 iff the exact single-attempt success fraction p >= 0.0984468...
+         \* The library evaluates the rule in floating point, so the specification states it as a band: in general refuse when
+         \* p <= 0.085, never when p >= 0.11; for recipes of length <= 2 (entropies of a few bits, float32 error < 2e-6 relative)
+         \* the band is 0.09838 (failure probability 1.011e-9) .. 0.09851 (0.982e-9)
          LET r == e.char
              A == Cardinality(Alphabet(r))
              num == CountValidBig(r)
              den == Pow(FromInt(A), r.len)
-         IN <<IF Le(MulSmall(num, 1000), MulSmall(den, 85)) /\ ~(e.kind = "err" /\ e.draws = 0)
+             lo == IF r.len <= 2 THEN 9838 ELSE 8500
+             hi == IF r.len <= 2 THEN 9851 ELSE 11000
+         IN <<IF Le(Mul(num, FromInt(100000)), Mul(den, FromInt(lo))) /\ ~(e.kind = "err" /\ e.draws = 0)
                 THEN "P:C16:a-recipe-beyond-the-tolerated-failure-probability-of-1e-9-was-not-refused-up-front" ELSE "ok",
-              IF ~Lt(MulSmall(num, 1000), MulSmall(den, 110)) /\ e.kind = "err" /\ e.draws = 0
+              IF ~Lt(Mul(num, FromInt(100000)), Mul(den, FromInt(hi))) /\ e.kind = "err" /\ e.draws = 0
                 THEN "P:C16:a-recipe-within-the-tolerated-failure-probability-was-refused" ELSE "ok">>
     [] e.op = "preset" ->
          LET want == PresetValues(e.name)
